@@ -915,8 +915,9 @@ class SyncState:  # pylint: disable=too-many-instance-attributes, too-many-publi
             if ent[side].changed or ent[OTHER_SIDE[side]].changed:
                 self._changeset_storage.add(ent)
         else:
-            # ent without oid doesn't go in changeset
-            if ent[side].changed and not ent[OTHER_SIDE[side]].changed:
+            # ent without oid doesn't go in changeset, unless the other side is changed and still has its oid
+            other = ent[OTHER_SIDE[side]]
+            if not (other.changed and other.oid is not None):
                 self._changeset_storage.discard(ent)
 
     def lookup_creation(self, content_hash, side):
